@@ -73,6 +73,19 @@ EXPECTED_BUFIO = {
     "io/io.go:ReadFull": "33b44fb13af4",
 }
 
+# dimension audit, item 4: package-level variables of the decoder / encoder / writer files and the functions that
+# write them. Only `imap` is written, and only in init (a read-only table for the code under test; its range
+# -1024 … 524287 is a threshold the `en` ops draw on both sides): there is no mutable process-global state, so no
+# first-use / concurrent-use dimension. A new entry here (a pool, a cache, a sync.Once) is a tie failure.
+EXPECTED_GLOBALS = [
+    "pkg/redis/client/decoder.go: var ErrBadRespArrayLen",
+    "pkg/redis/client/decoder.go: var ErrBadRespBytesLen",
+    "pkg/redis/client/decoder.go: var ErrBadRespCRLFEnd",
+    "pkg/redis/client/encoder.go: imap written in init",
+    "pkg/redis/client/encoder.go: var imap",
+    "pkg/redis/client/proto/writer.go: var crlfBytes"
+]
+
 EXPECTED_DECODER_USERS = [
     "cmd/aof.go:Cmd:MustDecodeOpt",
     "cmd/aof.go:Cmd:NewDecoder",
@@ -147,6 +160,7 @@ PROP = {
         "c12_bisync_offset_flow": EXPECTED_BISYNC_FLOW,
         "c12_bodies": EXPECTED_BODIES,
         "c12_bufio": EXPECTED_BUFIO,
+        "c12_globals": EXPECTED_GLOBALS,
     },
     "harness": [{"name": "C12", "pkg": "./pkg/redis/client/", "test": "TestVerifC12",
                  "timeout_quick": "10m", "timeout_thorough": "40m"}],
@@ -189,6 +203,17 @@ PROP = {
             "bypass of Reader.Read). All configurations of a stream must agree with the unfragmented run (fragmentation-dependence), the property "
             "monitor runs on each, and no two decoded arguments of a stream may occupy overlapping memory (args-share-memory; also on every "
             "`dec` stream). SAME-SIZE VALUES: streams whose consecutive values have identical sizes 14 … 1 MiB+3 (all held to the end). "
+            "DIMENSION AUDIT (forced cases, counters dim_* / cfg_readBufSize_*): argument sizes cap-3 … cap+1 for bufio sizes 16, 64, 1024, 4096, 65536 "
+            "(n and n+2 on both sides of every bufio threshold) as fr ops with the value starting anywhere in the buffer; 1023-1025; 26 degenerate "
+            "streams cut at every index (argument count 0, `*-1`, integer / simple-string / error / null-bulk / nested-array / null-array elements, "
+            "top-level non-arrays, empty CRLF lines, only newlines, inline commands of spaces / ending in bare LF, CR without LF after a payload / in a "
+            "length line / at the end, a stream ending right after a `$n` line / a `*n` line / a type byte, empty name, `$+4` `$04` `$-2`), all-empty "
+            "arguments, a keep-alive run longer than the buffer; streams ending exactly at MaxInt64 (by start, by preset, by both); every type WriteArg "
+            "accepts at its boundary values (int / int8-64 min max, uint / uint8-64 max, float64 / float32 NaN ±Inf -0 max smallest, bool, nil, "
+            "[]byte(nil), []byte{}, \"\", Duration, net.IP nil / 4 / 16 bytes, time.Time, BinaryMarshaler) alone, in the middle and all in one command, "
+            "a type it refuses (no complete command may be sent), values at conn.WriterBufferSize; client.Encode with bulk lengths on both sides of "
+            "the itos table's end (524287 / 524288); the decoder created on a bufio.Reader that was USED before (1 … 3*cap+5 bytes consumed, optionally "
+            "UnreadByte) - monitor only; thorough: an argument of exactly 512 MiB. "
             "ABOVE 512 MiB (monitor only, `huge` replay): SET k <512 MiB+1 … +4096 pattern bytes>; PING from a lazy reader (reads of up to 8 MiB) "
             "through the real decoder - argument bytes against the pattern, both offsets, reader position; thorough adds one of 768 MiB+.",
     "trusted": [
